@@ -12,12 +12,19 @@
 (* to what /repo does; TLC checks, for every bounded tree, that the        *)
 (* restored entries carry exactly the recorded mode and owner and that     *)
 (* nothing outside the destination changes.                                *)
+(* The destination may already hold an entry (a file, a directory, a       *)
+(* symlink to the sentinel outside or to nowhere, a fifo): without the     *)
+(* overwrite option restore must refuse it and leave it untouched          *)
+(* (src/restore.rs restore(): directory_is_empty).  What the emptiness     *)
+(* test looks at is a constant: the code asks read_dir, which sees every   *)
+(* kind of entry; a test that only sees files and directories is refuted.  *)
 (***************************************************************************)
 EXTENDS Integers, Sequences, FiniteSets, TLC
 
 CONSTANTS FileOwnerBeforeMode,     \* restore_file: set_owner, then set_permissions (TRUE since ba7476d)
           SymlinkChownFollows,     \* FALSE: lchown on symlinks
-          SymlinkTimesFollow       \* FALSE: lutimes on symlinks
+          SymlinkTimesFollow,      \* FALSE: lutimes on symlinks
+          EmptinessSeesAllKinds    \* TRUE: the emptiness test of the destination sees symlinks, fifos, ... (read_dir)
 
 Modes  == {420, 2541, 1517}        \* 0o644, 0o4755 (setuid), 0o2755 (setgid)
 Owners == {"root", "daemon"}
@@ -31,14 +38,25 @@ Entries == [k : {"File", "Dir"}, mode : Modes, owner : Owners, target : {""}]
 Names == {"a", "b"}
 
 VARIABLES tree,     \* what is being restored: name -> entry
-          dest,     \* the destination directory: name -> inode [k, mode, owner, mtime, target]
-          outside,  \* the sentinel beside the destination: [mode, owner, mtime]
+          dest,     \* the destination directory: name -> inode [k, mode, owner, mtime, target, content]
+          outside,  \* the sentinel beside the destination: [mode, owner, mtime, content]
           todo,     \* names still to restore (restored in name order)
+          dest0,    \* what the destination held when restore was called
+          overwrite,\* the option
           pc
 
-vars == <<tree, dest, outside, todo, pc>>
+vars == <<tree, dest, outside, todo, dest0, overwrite, pc>>
 
-Sentinel == [mode |-> 416, owner |-> "root", mtime |-> 7]
+Sentinel == [mode |-> 416, owner |-> "root", mtime |-> 7, content |-> "precious"]
+
+\* what the destination may hold beforehand: nothing, or one entry under a name the version also
+\* has or under a name of its own
+PreInodes == { [k |-> "File", mode |-> 420, owner |-> "root", mtime |-> 3, target |-> "", content |-> "keep me"],
+               [k |-> "Dir", mode |-> 493, owner |-> "root", mtime |-> 3, target |-> "", content |-> ""],
+               [k |-> "Symlink", mode |-> 511, owner |-> "root", mtime |-> 3, target |-> "OUTSIDE", content |-> ""],
+               [k |-> "Symlink", mode |-> 511, owner |-> "root", mtime |-> 3, target |-> "dangling", content |-> ""],
+               [k |-> "Fifo", mode |-> 420, owner |-> "root", mtime |-> 3, target |-> "", content |-> ""] }
+PreDests == {<<>>} \cup {[x \in {n} |-> i] : n \in Names \cup {"p"}, i \in PreInodes}
 
 \* the inode a path-taking call acts on: [where |-> "dest"|"outside"|"none", name]
 Resolve(d, n, follow) ==
@@ -68,49 +86,96 @@ NextName == CHOOSE n \in todo : \A m \in todo : n = m \/ (n = "a")
 
 Init ==
     /\ tree \in UNION {[S -> Entries] : S \in SUBSET Names}
-    /\ dest = <<>>
+    /\ dest0 \in PreDests
+    /\ dest = dest0
+    /\ overwrite \in BOOLEAN
     /\ outside = Sentinel
     /\ todo = DOMAIN tree
-    /\ pc = "run"
+    /\ pc = "check"
+
+\* the emptiness test: without the overwrite option a destination that holds anything is refused
+Check ==
+    /\ pc = "check"
+    /\ LET seen == {n \in DOMAIN dest : EmptinessSeesAllKinds \/ dest[n].k \in {"File", "Dir"}} IN
+       pc' = IF ~overwrite /\ seen # {} THEN "refused" ELSE "run"
+    /\ UNCHANGED <<tree, dest, outside, todo, dest0, overwrite>>
+
+\* creating entry e under name n when the destination already holds something of that name:
+\*   "fresh"   nothing there: the entry is created
+\*   "reuse"   the call succeeds on what is there (File::create truncates a file; create_dir_all
+\*             accepts a directory -- and, mapped from AlreadyExists, anything else)
+\*   "through" File::create follows a symlink to the sentinel and writes there
+\*   "error"   the call fails, the entry is skipped with an error
+\*   "hang"    File::create blocks opening a fifo
+HowCreated(d, n, e) ==
+    IF n \notin DOMAIN d THEN "fresh"
+    ELSE LET x == d[n] IN
+         CASE e.k = "Symlink" -> "error"                                   \* symlink(2): EEXIST
+           [] e.k = "Dir"     -> "reuse"                                   \* (AlreadyExists is mapped to Ok)
+           [] e.k = "File" /\ x.k = "File" -> "reuse"
+           [] e.k = "File" /\ x.k = "Dir" -> "error"                       \* EISDIR
+           [] e.k = "File" /\ x.k = "Fifo" -> "hang"
+           [] e.k = "File" /\ x.k = "Symlink" /\ x.target = "OUTSIDE" -> "through"
+           [] OTHER -> "error"                                             \* dangling: no such directory
 
 \* restore one entry: creation followed by its metadata calls, in the code's order
 RestoreOne ==
     /\ pc = "run" /\ todo # {}
     /\ LET n == NextName
            e == tree[n]
+           how == HowCreated(dest, n, e)
+           fresh == [k |-> e.k, mode |-> IF e.k = "Symlink" THEN 511 ELSE IF e.k = "Dir" THEN 493 ELSE 420,
+                     owner |-> "root", mtime |-> 0, target |-> e.target, content |-> IF e.k = "File" THEN "restored" ELSE ""]
            created == [x \in (DOMAIN dest) \cup {n} |->
-                         IF x = n THEN [k |-> e.k, mode |-> IF e.k = "Symlink" THEN 511 ELSE IF e.k = "Dir" THEN 493 ELSE 420,
-                                        owner |-> "root", mtime |-> 0, target |-> e.target]
+                         IF x = n THEN (IF how = "fresh" THEN fresh
+                                        ELSE IF how = "reuse" /\ e.k = "File" THEN [dest[n] EXCEPT !.content = "restored"]
+                                        ELSE dest[n])
                          ELSE dest[x]]
+           \* (File::create through the symlink: the bytes land in the sentinel)
+           out1 == IF how = "through" THEN [outside EXCEPT !.content = "restored"] ELSE outside
        IN
-       IF e.k = "Symlink"
-       THEN LET s1 == Chown(created, outside, n, e.owner, SymlinkChownFollows)
-                s2 == Utimes(s1[1], s1[2], n, 5, SymlinkTimesFollow)
-            IN dest' = s2[1] /\ outside' = s2[2]
-       ELSE IF e.k = "File"
-       THEN LET t1 == Utimes(created, outside, n, 5, TRUE)
-                a  == IF FileOwnerBeforeMode THEN Chown(t1[1], t1[2], n, e.owner, FALSE) ELSE Chmod(t1[1], t1[2], n, e.mode)
-                b  == IF FileOwnerBeforeMode THEN Chmod(a[1], a[2], n, e.mode) ELSE Chown(a[1], a[2], n, e.owner, FALSE)
-            IN dest' = b[1] /\ outside' = b[2]
-       ELSE \* directories: owner, mode, mtime (apply_deferrals)
-            LET a == Chown(created, outside, n, e.owner, FALSE)
-                b == Chmod(a[1], a[2], n, e.mode)
-                c == Utimes(b[1], b[2], n, 5, TRUE)
-            IN dest' = c[1] /\ outside' = c[2]
-    /\ todo' = todo \ {NextName}
-    /\ UNCHANGED <<tree, pc>>
+       IF how = "hang" THEN pc' = "hung" /\ UNCHANGED <<dest, outside, todo>>
+       ELSE /\ pc' = pc
+            /\ todo' = todo \ {NextName}
+            /\ IF how = "error" THEN UNCHANGED <<dest, outside>>
+               ELSE IF e.k = "Symlink"
+               THEN LET s1 == Chown(created, out1, n, e.owner, SymlinkChownFollows)
+                        s2 == Utimes(s1[1], s1[2], n, 5, SymlinkTimesFollow)
+                    IN dest' = s2[1] /\ outside' = s2[2]
+               ELSE IF e.k = "File"
+               \* (the times are set through the open handle: on whatever File::create opened)
+               THEN LET t1 == Utimes(created, out1, n, 5, TRUE)
+                        a  == IF FileOwnerBeforeMode THEN Chown(t1[1], t1[2], n, e.owner, FALSE) ELSE Chmod(t1[1], t1[2], n, e.mode)
+                        b  == IF FileOwnerBeforeMode THEN Chmod(a[1], a[2], n, e.mode) ELSE Chown(a[1], a[2], n, e.owner, FALSE)
+                    IN dest' = b[1] /\ outside' = b[2]
+               ELSE \* directories: owner, mode, mtime (apply_deferrals)
+                    LET a == Chown(created, out1, n, e.owner, FALSE)
+                        b == Chmod(a[1], a[2], n, e.mode)
+                        c == Utimes(b[1], b[2], n, 5, TRUE)
+                    IN dest' = c[1] /\ outside' = c[2]
+    /\ UNCHANGED <<tree, dest0, overwrite>>
 
-Finish == pc = "run" /\ todo = {} /\ pc' = "done" /\ UNCHANGED <<tree, dest, outside, todo>>
+Finish == pc = "run" /\ todo = {} /\ pc' = "done" /\ UNCHANGED <<tree, dest, outside, todo, dest0, overwrite>>
 
-Next == RestoreOne \/ Finish
+Next == Check \/ RestoreOne \/ Finish
 Spec == Init /\ [][Next]_vars
 
 \* C01: every restored entry has the recorded mode (incl. setuid/setgid) and owner
+\* (into an empty destination: with the overwrite option over existing entries of other kinds
+\* the statement promises nothing)
 Inv_MetadataExact ==
-    pc = "done" => \A n \in DOMAIN tree :
+    pc = "done" /\ dest0 = <<>> => \A n \in DOMAIN tree :
         /\ dest[n].k = tree[n].k
         /\ dest[n].owner = tree[n].owner
         /\ (tree[n].k # "Symlink" => dest[n].mode = tree[n].mode)
-\* C16: nothing outside the destination changes, at any moment
-Inv_OutsideUntouched == outside = Sentinel
+\* C16: nothing outside the destination changes, at any moment. (The statement is about the
+\* symlinks of the SOURCE. With the overwrite option, into a destination that already holds a
+\* symlink, the code does write through it -- File::create and chmod follow -- which this
+\* antecedent leaves out; see DESIGN.md section 12.)
+Inv_OutsideUntouched == (~overwrite \/ \A n \in DOMAIN dest0 : dest0[n].k # "Symlink") => outside = Sentinel
+\* C16: without the overwrite option a destination that holds anything is refused and left as it was
+Inv_RefusesNonEmpty == (~overwrite /\ dest0 # <<>>) => pc \in {"check", "refused"}
+Inv_RefusedUntouched == pc = "refused" => dest = dest0 /\ outside = Sentinel
+\* ... and a restore that was not refused never blocks on what it found (only reachable with overwrite)
+Inv_NoHangWithoutOverwrite == pc = "hung" => overwrite
 =============================================================================
